@@ -8,47 +8,142 @@ returns exactly the keys whose prefix and suffix fall in the requested ranges, a
 index changes an iterator continues from its current key as if it re-sought the next greater
 (or smaller) key."
 
-The theorems are about `Gsu.Iter.next` & co. (`Gsu/Model/Iter.lean`), the mirror of
+The theorems are about `Gsu.Iter.next`/`prev` & co. (`Gsu/Model/Iter.lean`), the mirror of
 `db19/index/overiter.go` that `drv_c09` executes against the real `OverIter`.
 
 Specification: `sem Ls k` = the offset the top-most layer mentioning `k` gives it (none if that
 layer deletes it); `IsNext Ls r bd res` = `res` is the least key `k` with `bd.ok k`, `k < r.end`,
-`sem Ls k ≠ none` (with its offset), or no such key exists and `res = none`.
-`Good oi` is the invariant of the mirror (layers sorted with keys below `ixkey.Max`, iterators
-canonical w.r.t. curKey, fuel never exhausted).
+`sem Ls k ≠ none` (with its offset), or no such key exists and `res = none`; `IsPrev Ls r bu res`
+the mirror image (greatest key with `bu.ok k`, `r.org ≤ k`).
+`GoodB oi` is the invariant of the mirror (layers sorted with keys below `ixkey.Max`, iterators
+canonical w.r.t. curKey for the direction of the last step, `fastIdx`/`secondMin`/`secondMax`
+describe the iterators, fuel never exhausted); `Good oi` is its forward part (stage 1).
+`Comp Ls` is the companion invariant `overiter.go` relies on for its fast path ("any tombstone or
+update in this iter has a companion in another iter"): every entry that is not a plain add with a
+non-zero offset has an entry with the same key in a lower layer. It is only needed for steps that
+take the fast path (`fastpath_without_companion_counter` shows it cannot be dropped).
 
-PROVED (stage 1): every forward step that runs the slow path — first step after Rewind/Range,
-every step after the transaction's own layer changed (`reseek_after_mod`), every step after the
-overlay was replaced, and same-direction steps when the fast path is not available — returns
-exactly the next live key, keeps the invariant, and the skip loop of `minIter` terminates.
-NOT PROVED (kept visible below, tied to the code by the correspondence run only):
-  * FULL `overiter_next_spec`: the same conclusion without `hslow`/`hdir`, i.e. also for steps
-    that take `fastNext` (needs the companion invariant "every upd/del entry has an entry with the
-    same key in a lower layer" and the `fastIdx/secondMin` bookkeeping) and for the first `Next`
-    after a `Prev`;
-  * `overiter_prev_spec`: the mirror image for `prev`/`maxIter`/`modPrev`/`fastPrev`
-    (`IsPrev`: greatest live key below the bound);
-  * `iterate_sorted_exact`: follows from the two by induction over the steps;
+PROVED: `overiter_next_spec` / `overiter_prev_spec` — EVERY step of `Next`/`Prev` (first step after
+Rewind/Range, slow path, fast path and its fall-back, first step after a step in the other
+direction, after the transaction's own layer changed, after the overlay was replaced) returns
+exactly the next/previous live key of the range with the offset of the top-most layer, without
+flag bits, and re-establishes the invariant; `fastpath_refines_slow`; direction reversal;
+re-seek after modification in both directions; `iterate_sorted_exact` (forward and backward:
+iterating from Rewind to eof yields exactly the list of live keys of the range, in order, and
+then eof); the executable specification printed by the driver (`specNext`/`specPrev`) equals
+the relational one, so `Next`/`Prev` return exactly what it computes.
+NOT PROVED (tied to the code by the correspondence run only):
   * skip-scan: the per-layer skip-scan iterators (`skipAdvanceToMatch` …) are modelled as plain
-    iterators over the visibility-filtered layer, not mirrored; `skipscan_sem` below is the
-    OverIter-level half of the statement.
+    iterators over the visibility-filtered layer, not mirrored; `skipscan_sem_partial` below is
+    the OverIter-level half of the statement (all the theorems above apply to the filtered
+    layers).
 -/
-import Gsu.Proofs.Iter
+import Gsu.Proofs.Iter9
 import Gsu.Gen.Iter
 import Gsu.Gen.Ixkey
 namespace Gsu.Props.C09
 open Gsu.Iter
 
-/-- A forward step on the slow path returns exactly the next live key of the range (with the
-offset of the top-most layer), or eof when there is none, and re-establishes the invariant.
-`hslow`: the fast path is not taken; `hdir`: the previous step was not a `Prev`.
-(partial: see the header for the full statement) -/
-theorem overiter_next_spec_partial (oi : OI) (hg : Good oi) (hne : oi.st ≠ .eof)
+/-- **Every** forward step returns exactly the next live key of the range (with the offset of the
+top-most layer, flag bits removed), or eof when there is none, and re-establishes the invariant:
+first step after Rewind/Range (`nextBd` = from `org`), slow path, fast path and its fall-back,
+first `Next` after a `Prev`, after a modification or a new overlay. The companion invariant is
+only needed when the fast path may be taken. -/
+theorem overiter_next_spec (oi : OI) (hg : GoodB oi) (hne : oi.st ≠ .eof)
+    (hcomp : canFast (update oi).1 (update oi).2 .next = true → Comp (curLayers oi)) :
+    GoodB (next oi) ∧ IsNext (curLayers oi) oi.rng (nextBd oi) (next oi).result ∧
+      ((next oi).st = .within → (next oi).curOp = .add) :=
+  next_full oi hg hne hcomp
+
+/-- The symmetric statement for every backward step (`prevBd` = below `end` after a rewind, else
+below curKey). -/
+theorem overiter_prev_spec (oi : OI) (hg : GoodB oi) (hne : oi.st ≠ .eof)
+    (hcomp : canFast (update oi).1 (update oi).2 .prev = true → Comp (curLayers oi)) :
+    GoodB (prev oi) ∧ IsPrev (curLayers oi) oi.rng (prevBd oi) (prev oi).result ∧
+      ((prev oi).st = .within → (prev oi).curOp = .add) :=
+  prev_full oi hg hne hcomp
+
+/-- (stage 1, kept) A forward step on the slow path needs neither the companion invariant nor the
+backward/fast-path part of the invariant. `hslow`: the fast path is not taken; `hdir`: the
+previous step was not a `Prev`. -/
+theorem next_slow_spec (oi : OI) (hg : Good oi) (hne : oi.st ≠ .eof)
     (hdir : oi.st = .within → oi.pend = none → oi.lastDir = .next)
     (hslow : oi.st = .within → canFast (update oi).1 (update oi).2 .next = false) :
     Good (next oi) ∧ IsNext (curLayers oi) oi.rng (nextBd oi) (next oi).result ∧
       ((next oi).st = .within → (next oi).curOp = .add) :=
   next_slow oi hg hne hdir hslow
+
+/-- The fast path refines the slow path: whenever `canFast` holds, what `Next` returns (from
+`fastNext`, or from its fall-back) is what `modNext; minIter` returns from the same state; the
+same for `Prev`. -/
+theorem fastpath_refines_slow (oi : OI) (hg : GoodB oi) (hp : oi.pend = none)
+    (hst : oi.st = .within) (hcomp : Comp oi.layers) :
+    (canFast oi false .next = true → (nextCore oi false).result = (nextSlow oi false).result) ∧
+    (canFast oi false .prev = true → (prevCore oi false).result = (prevSlow oi false).result) :=
+  ⟨fastNext_refines oi hg hp hst hcomp, fastPrev_refines oi hg hp hst hcomp⟩
+
+/-- The companion invariant cannot be dropped: on a (well-formed) single layer holding a tombstone
+without companion the fast path returns the deleted key. (`overiter.go` documents the invariant;
+a btree never holds tombstones and ixbuf layers only delete keys present below.) -/
+theorem fastpath_without_companion_counter :
+    let Ls : List Layer := [[⟨[1], .add, 10⟩, ⟨[2], .del, 5⟩]]
+    WF Ls ∧ ¬ Comp Ls ∧
+    (next (next (newOverlay {} Ls))).result = some ([2], 5) ∧ sem Ls [2] = none := by
+  refine ⟨?_, by unfold Comp; decide, by decide, by decide⟩
+  intro L hL
+  simp only [List.mem_cons, List.mem_nil_iff, or_false] at hL
+  subst hL
+  exact ⟨by unfold SortedL; decide, by decide⟩
+
+/-- Direction reversal: a `Next` directly after a `Prev` that landed on key `k` returns the least
+live key above `k`; a `Prev` directly after a `Next` that landed on `k` the greatest live key below
+`k` (both also after the fast path was used for the first step). -/
+theorem direction_reversal (oi : OI) (hg : GoodB oi) (hne : oi.st ≠ .eof)
+    (hcomp : Comp (curLayers oi)) :
+    ((prev oi).st = .within → GoodB (next (prev oi)) ∧
+      IsNext (curLayers oi) oi.rng (.gt (prev oi).curKey) (next (prev oi)).result) ∧
+    ((next oi).st = .within → GoodB (prev (next oi)) ∧
+      IsPrev (curLayers oi) oi.rng (.lt (next oi).curKey) (prev (next oi)).result) :=
+  ⟨next_after_prev oi hg hne hcomp, prev_after_next oi hg hne hcomp⟩
+
+/-- Iterating forward from `Rewind` until eof returns exactly the live keys of the range with their
+offsets, in increasing order — as a list equality with any list `spec` that is strictly increasing
+and contains exactly the pairs `(k, off)` with `org ≤ k < end`, `sem Ls k = some off` — and the
+step after the last key is eof. Backward: the same with the decreasing list. -/
+theorem iterate_sorted_exact (oi : OI) (hg : GoodB oi) (hcomp : Comp (curLayers oi)) (n : Nat)
+    (hn : totalLen (curLayers oi) < n) (spec : List (Key × Nat)) :
+    (LiveAsc (curLayers oi) oi.rng spec →
+      collectNext (rewind oi) n = spec ∧ (nextN (rewind oi) (spec.length + 1)).st = .eof) ∧
+    (LiveDesc (curLayers oi) oi.rng spec →
+      collectPrev (rewind oi) n = spec ∧ (prevN (rewind oi) (spec.length + 1)).st = .eof) :=
+  ⟨iterate_fwd oi hg hcomp n hn spec, iterate_bwd oi hg hcomp n hn spec⟩
+
+/-- From any state (not only after `Rewind`): the keys collected by repeated `Next` are strictly
+increasing and are exactly the live keys past the bound; the mirror image for `Prev`. -/
+theorem iterate_from_any_state (oi : OI) (hg : GoodB oi) (hne : oi.st ≠ .eof)
+    (hcomp : Comp (curLayers oi)) (n : Nat) (hn : totalLen (curLayers oi) < n) :
+    ((collectNext oi n).Pairwise (fun a b => a.1 < b.1) ∧
+      ∀ k off, (k, off) ∈ collectNext oi n ↔
+        ((nextBd oi).ok k = true ∧ k < oi.rng.end_ ∧ sem (curLayers oi) k = some off)) ∧
+    ((collectPrev oi n).Pairwise (fun a b => b.1 < a.1) ∧
+      ∀ k off, (k, off) ∈ collectPrev oi n ↔
+        ((prevBd oi).ok k = true ∧ ¬ k < oi.rng.org ∧ sem (curLayers oi) k = some off)) :=
+  ⟨collectNext_spec n oi hg hne hcomp
+      (by have := cnt_le_total (nextBd oi) (curLayers oi); omega),
+   collectPrev_spec n oi hg hne hcomp
+      (by have := cntP_le_total (prevBd oi) (curLayers oi); omega)⟩
+
+/-- `specNext = IsNext`: the executable specification the driver prints next to every step (and
+the correspondence run compares with the real `OverIter` and with the Go sorted-map oracle) is the
+relational specification, hence `Next`/`Prev` return exactly what it computes. -/
+theorem spec_exec_eq_rel (oi : OI) (hg : GoodB oi) (hne : oi.st ≠ .eof)
+    (hcomp : Comp (curLayers oi)) :
+    (next oi).result = specNext (curLayers oi) oi.rng (nextBd oi) ∧
+    (prev oi).result = specPrev (curLayers oi) oi.rng (prevUb oi) ∧
+    (∀ Ls r bd, (∀ k, bd.ok k = true → ¬ k < r.org) → IsNext Ls r bd (specNext Ls r bd)) ∧
+    (∀ Ls r ub, (∀ u, ub = some u → ¬ r.end_ < u) → IsPrev Ls r (ubBu r ub) (specPrev Ls r ub)) :=
+  ⟨next_eq_spec oi hg hne (fun _ => hcomp), prev_eq_spec oi hg hne (fun _ => hcomp),
+   specNext_isNext, specPrev_isPrev⟩
 
 /-- eof is sticky -/
 theorem next_eof_sticks (oi : OI) (h : oi.st = .eof) : next oi = oi := by
@@ -82,12 +177,34 @@ theorem reseek_after_new_overlay (oi : OI) (hg : Good oi) (hst : oi.st = .within
     IsNext Ls oi.rng (.gt oi.curKey) (next (newOverlay oi Ls)).result :=
   newOverlay_next oi hg hst Ls hwf
 
-/-- Keys come out strictly increasing (forward, slow path). -/
-theorem next_increasing_partial (oi : OI) (hg : Good oi) (hst : oi.st = .within)
-    (hdir : oi.pend = none → oi.lastDir = .next)
-    (hslow : canFast (update oi).1 (update oi).2 .next = false)
-    (hw : (next oi).st = .within) : oi.curKey < (next oi).curKey :=
-  next_increasing oi hg hst hdir hslow hw
+/-- Re-seek after modification, both directions, from any previous direction: after the
+transaction's own (top) layer has been replaced by any well-formed content `L`, the next step
+returns the least live key greater (the greatest live key smaller) than curKey of the *new* index
+content. No companion invariant needed (the fast path is never taken after a modification). -/
+theorem reseek_after_mod_both (oi : OI) (hg : GoodB oi) (hst : oi.st = .within)
+    (hne : curLayers oi ≠ []) (L : Layer) (hL : LWF L) :
+    (GoodB (next (mutate oi L)) ∧
+      IsNext (curLayers (mutate oi L)) oi.rng (.gt oi.curKey) (next (mutate oi L)).result) ∧
+    (GoodB (prev (mutate oi L)) ∧
+      IsPrev (curLayers (mutate oi L)) oi.rng (.lt oi.curKey) (prev (mutate oi L)).result) :=
+  ⟨mutate_nextB oi hg hst hne L hL, mutate_prevB oi hg hst hne L hL⟩
+
+/-- The same when the transaction presents a different overlay, both directions. -/
+theorem reseek_after_new_overlay_both (oi : OI) (hg : GoodB oi) (hst : oi.st = .within)
+    (Ls : List Layer) (hwf : WF Ls) :
+    (GoodB (next (newOverlay oi Ls)) ∧
+      IsNext Ls oi.rng (.gt oi.curKey) (next (newOverlay oi Ls)).result) ∧
+    (GoodB (prev (newOverlay oi Ls)) ∧
+      IsPrev Ls oi.rng (.lt oi.curKey) (prev (newOverlay oi Ls)).result) :=
+  ⟨newOverlay_nextB oi hg hst Ls hwf, newOverlay_prevB oi hg hst Ls hwf⟩
+
+/-- Keys come out strictly increasing under `Next` and strictly decreasing under `Prev`
+(every path). -/
+theorem next_increasing (oi : OI) (hg : GoodB oi) (hst : oi.st = .within)
+    (hcomp : Comp (curLayers oi)) :
+    ((next oi).st = .within → oi.curKey < (next oi).curKey) ∧
+    ((prev oi).st = .within → (prev oi).curKey < oi.curKey) :=
+  ⟨next_increasing_full oi hg hst (fun _ => hcomp), prev_decreasing_full oi hg hst (fun _ => hcomp)⟩
 
 /-- The other operations keep the invariant, so the theorems above apply along any history of
 Rewind / Range / mutation / overlay replacement / slow-path Next. -/
@@ -96,6 +213,17 @@ theorem good_preserved (oi : OI) (hg : Good oi) :
     (∀ Ls, WF Ls → Good (newOverlay oi Ls)) ∧
     (∀ L, LWF L → curLayers oi ≠ [] → Good (mutate oi L)) :=
   ⟨good_rewind hg, good_range hg, fun _ h => good_newOverlay hg h, fun _ hL hne => good_mutate hg hne hL⟩
+
+/-- The same for the two-directional invariant `GoodB` (which implies `Good`), so
+`overiter_next_spec`/`overiter_prev_spec` apply along any history of Next / Prev / Rewind / Range /
+mutation / overlay replacement starting from a fresh iterator. -/
+theorem goodB_preserved (oi : OI) (hg : GoodB oi) :
+    Good oi ∧ GoodB (rewind oi) ∧ (∀ r, GoodB (range oi r)) ∧
+    (∀ Ls, WF Ls → GoodB (newOverlay oi Ls)) ∧
+    (∀ L, LWF L → curLayers oi ≠ [] → GoodB (mutate oi L)) ∧
+    (∀ Ls, WF Ls → GoodB (newOverlay {} Ls)) :=
+  ⟨hg.good, goodB_rewind hg, goodB_range hg, fun _ h => goodB_newOverlay hg h,
+   fun _ hL hne => goodB_mutate hg hne hL, fun _ h => goodB_start h⟩
 
 /-- Skip-scan at the OverIter level: the content of the visibility-filtered layers is the content
 of the index restricted to the keys whose prefix and suffix fall in the requested ranges; the
@@ -118,11 +246,21 @@ theorem example_layers_wf : WF exLayers := by
   rcases hL with rfl | rfl | rfl <;> exact ⟨by unfold SortedL; decide, by decide⟩
 
 example : Good (newOverlay {} exLayers) := good_start example_layers_wf
+example : GoodB (newOverlay {} exLayers) := goodB_start example_layers_wf
+/-- non-vacuity: the example stack satisfies the companion invariant -/
+theorem example_layers_comp : Comp exLayers := by unfold Comp; decide
 
 -- the mirror on that stack: [0,0]/30, [1]/10, [2]/20, then eof ([3] is deleted)
 example : (next (newOverlay {} exLayers)).result = some ([0, 0], 30) := by decide
 example : (next (next (next (newOverlay {} exLayers)))).result = some ([2], 20) := by decide
 example : (next (next (next (next (newOverlay {} exLayers))))).st = .eof := by decide
+-- backwards: [2]/20, [1]/10, [0,0]/30, eof; and a reversal
+example : (prev (newOverlay {} exLayers)).result = some ([2], 20) := by decide
+example : (prev (prev (prev (newOverlay {} exLayers)))).result = some ([0, 0], 30) := by decide
+example : (prev (prev (prev (prev (newOverlay {} exLayers))))).st = .eof := by decide
+example : (next (prev (prev (newOverlay {} exLayers)))).result = some ([2], 20) := by decide
+example : collectNext (rewind (newOverlay {} exLayers)) 7 = [([0, 0], 30), ([1], 10), ([2], 20)] := by
+  decide
 
 /-- (G) the flag bits the mirror decodes raw offsets with, the `ixkey.Max` sentinel `minIter`
 compares with, and the state / direction constants are those of the Go source today. -/
